@@ -5,6 +5,11 @@ BINS = {
     "sets":    {"dir": "internal/sets", "mod": "root", "harness": ["rootin/setscommon", "rootin/sets"]},
     "intsets": {"dir": "stringclassifier/internal/sets", "mod": "root", "harness": ["rootin/setscommon", "rootin/intsets"]},
     "ext":     {"kind": "ext", "pkg": "."},
+    "tokenizer": {"dir": "stringclassifier/searchset/tokenizer", "mod": "root", "harness": ["rootin/tokenizer"]},
+    "searchset": {"dir": "stringclassifier/searchset", "mod": "root", "harness": ["rootin/searchset"]},
+    "strcls":  {"dir": "stringclassifier", "mod": "root", "harness": ["rootin/strcls"]},
+    "commentparser": {"dir": "commentparser", "mod": "root", "harness": ["rootin/commentparser"]},
+    "rootpkg": {"dir": ".", "mod": "root", "harness": ["rootin/rootpkg"]},
     "pq":      {"dir": "stringclassifier/internal/pq", "mod": "root", "harness": ["rootin/pq"]},
 }
 
@@ -106,6 +111,14 @@ PROPS = {
         "assumptions": ["trees are created under the driver's scratch directory; the process working directory is changed for relative spellings (cases run sequentially)", "for trees with txt files deeper than category/name/variant only 'no panic, nil error' is asserted (the statement makes no claim about them)"],
         "parts": [part("v2in", "TestVerif_C12_Trees", "trees", 1200, 16000, shards=(8, 16)),
                   part("ext", "TestVerif_C12_Default", "default-classifier", 0, 0, shards=(4, 16), enum=True)],
+    },
+    "C17": {
+        "rule": "generated strings (all Unicode space / punctuation kinds, invalid UTF-8) for the tokenizer invariants; generated low-vocabulary source/target pairs for the candidate-range invariants of FindPotentialMatches and TargetRange",
+        "assumptions": ["ordering of a candidate's ranges is read as non-decreasing TargetStart"],
+        "parts": [
+            part("tokenizer", "TestVerif_C17_Tokenize", "tokenize", 20000, 400000, shards=(4, 16)),
+            part("searchset", "TestVerif_C17_Candidates", "candidates", 12000, 200000, shards=(8, 16)),
+        ],
     },
     "C19": {
         "rule": "differential: the identify_license binary and backend.ClassifyLicenses run over generated file sets vs the library's Match per file computed in process (stdout multiset, exit status, JSON classifications and Text, independence of -tasks)",
